@@ -291,6 +291,9 @@ class DIP:
         # Parse nodes
         while len(queue.nodes):
             node = queue.nodes.pop()
+            # Properties and directives are not in the hierarchy, but they end cases at their indent too
+            if node.keyword in self.nodes_properties+['unit','source']:
+                target.branching.close_cases(node)
             # Close cases that end at the indent of this node
             if node.name is not None and node.keyword not in self.nodes_nohierarchy+['case']:
                 target.branching.close_cases(node)
